@@ -18,6 +18,7 @@ mod jsonf;
 mod gens;
 mod core;
 mod orchestrate;
+mod pyx;
 mod refad;
 mod rng;
 mod rsx;
